@@ -270,7 +270,11 @@ class HTTPHeaders(collections.abc.MutableMapping[str, str]):
             else:
                 if _FORBIDDEN_HEADER_CHARS_RE.search(new_part):
                     raise HTTPInputError("Invalid header value %r" % new_part)
-            self._as_list[self._last_key][-1] += new_part
+            # Optional whitespace around a field value is not part of it: keep the value
+            # trimmed when the previous value or the continuation is empty.
+            self._as_list[self._last_key][-1] = (
+                self._as_list[self._last_key][-1] + new_part
+            ).strip(HTTP_WHITESPACE)
             self._combined_cache.pop(self._last_key, None)
         else:
             try:
